@@ -158,29 +158,72 @@ def clock_locals(f):
 
 
 def r2(ctx, prog):
-    ctx.rule('C02.R2', 'A4: never before the deadline: the timer callback runs only past the test "now < expired -> stop" against a clock value read in '
-                       'this pass; the poll time-out is clamped at 0 and is 0 when next-tasks are pending', floor=3)
+    ctx.rule('C02.R2', 'A4+A10: never before the deadline: the tests between the clock value read in this pass and the timer callback, folded with the widths of their C types '
+                       'over deadlines up to 2^33 ms on either side, let the callback through exactly when now >= expired; the poll time-out is clamped at 0 and is 0 when next-tasks '
+                       'are pending', floor=3)
     f = prog.fn1(CL + '::handleExpiredTimers')
     inv = q.invokes(f)
     now = clock_locals(f)
     if not inv or not now:
         raise AnalysisBroken('handleExpiredTimers: callback invoke / clock read not found')
+    # the tests between the clock reading and the callback, folded with the widths of their C types: the callback is reached exactly when now >= expired,
+    # for deadlines a few milliseconds and many days away on either side (a difference narrowed to 32 bits changes sign beyond 24.8 days)
+    from tbxlint import minterp
+    from tbxlint.minterp import P
+    decl_of = {}
+    for st in f.stmts:
+        if st and st['k'] == 'DeclStmt':
+            for d in st['decls']:
+                decl_of[d['d']] = (st, d)
+    front = {d['d'] for st, d in decl_of.values() if 'init' in d and any(x.get('fn') == 'front' and 'obj' in x and is_heap_field(f, x['obj']) for x in q.subtree_calls(f, d['init']))}
+    NOW = 10 ** 9
+    DELTAS = (-(2 ** 33), -(2 ** 32) - 5, -(2 ** 31) - 60, -(2 ** 31), -(2 ** 31) + 1, -86400000, -1000, -1, 0, 1, 1000, 86400000, 2 ** 31 - 1, 2 ** 31, 2 ** 31 + 60, 2 ** 32 - 1, 2 ** 32 + 5,
+              2 ** 33)
+
+    def holds(cond, k, n_, e_):
+        it = minterp.Interp(prog, {'timer': {'expired': e_, '__cls__': None}}, hooks={})
+        env = {}
+        for d_ in now:
+            env[d_] = n_
+        for d_ in front:
+            env[d_] = P('timer', 0)
+
+        def need(e, depth=0):
+            for x in f.walk(e):
+                sx = f.stmts[x]
+                if sx['k'] == 'DeclRefExpr' and sx.get('dk') == 'Var' and sx['d'] not in env and sx['d'] in decl_of and depth < 6:
+                    dst, dd = decl_of[sx['d']]
+                    if 'init' not in dd or len(rd.local_defs(f, sx['d'])) != 1:
+                        raise AnalysisBroken('handleExpiredTimers: %s in the deadline test has more than one definition' % sx.get('n'))
+                    need(dd['init'], depth + 1)
+                    env[sx['d']] = minterp.wrap(it.ev(f, dd['init'], env), dd.get('ct') or dd.get('t'))
+        need(cond)
+        return it.truth(f, cond, env) == (k == 0)
+
+    def about_deadline(cond, depth=0):
+        for x in f.walk(cond):
+            sx = f.stmts[x]
+            if sx['k'] == 'DeclRefExpr' and sx.get('d') in now:
+                return True
+            if sx['k'] == 'MemberExpr' and (sx.get('q') or '').endswith('Timer::expired'):
+                return True
+            if sx['k'] == 'DeclRefExpr' and sx.get('dk') == 'Var' and sx['d'] in decl_of and 'init' in decl_of[sx['d']][1] and depth < 6 and about_deadline(decl_of[sx['d']][1]['init'], depth + 1):
+                return True
+        return False
     for i in inv:
-        ok = False
-        for c, k, b in f.cfg.controlling_branches(q.pt(f, i)):
-            x = f.s(f.strip_casts(c))
-            if x['k'] == 'BinaryOperator' and x.get('op') in ('<', '>', '<=', '>='):
-                l, r = f.s(f.strip_casts(x['ch'][0])), f.s(f.strip_casts(x['ch'][1]))
-                lnow = l['k'] == 'DeclRefExpr' and l.get('d') in now
-                rnow = r['k'] == 'DeclRefExpr' and r.get('d') in now
-                lexp = (f.field_of(x['ch'][0]) or '').endswith('Timer::expired')
-                rexp = (f.field_of(x['ch'][1]) or '').endswith('Timer::expired')
-                # reach the invoke only when now >= expired
-                if lnow and rexp and ((x['op'] == '<' and k == 1) or (x['op'] == '>=' and k == 0)):
-                    ok = True
-                if lexp and rnow and ((x['op'] == '>' and k == 1) or (x['op'] == '<=' and k == 0)):
-                    ok = True
-        ctx.ob('C02.R2', '%s|not-early' % f.name, ok, 'callback reachable only on the (now >= expired) edge of the deadline test', where=f.loc(i['i']))
+        gs = [(c, k) for c, k, b in f.cfg.controlling_branches(q.pt(f, i)) if about_deadline(c)]
+        bad = None
+        for dl in DELTAS:
+            e_ = NOW + dl
+            reach = all(holds(c, k, NOW, e_) for c, k in gs) if gs else True
+            if reach != (NOW >= e_) and (bad is None or (reach and not bad[1])):
+                bad = (dl, reach)       # an early firing is the more telling witness
+        ok = bool(gs) and bad is None
+        ctx.ob('C02.R2', '%s|not-early' % f.name, ok, 'the callback is reached exactly when now >= expired (%d test(s) folded over %d deadlines up to 2^33 ms away)' % (len(gs), len(DELTAS)) if ok else
+               ('no test of the deadline against the clock controls the callback' if not gs else
+                'for a timer whose deadline is %d ms %s the tests in front of the callback %s: %s' % (abs(bad[0]), 'ahead' if bad[0] > 0 else 'past', 'let it through' if bad[1] else 'stop the pass',
+                                                                                                  'the callback runs before its time' if bad[1] else 'a due timer is never fired and blocks every timer behind it')),
+               where=f.loc(gs[0][0]) if gs else f.loc(i['i']))
     g = prog.fn1(CL + '::getWaitTime')
     rets = q.returns(g)
     zero_first = any(q.return_const(g, r) == 0 and any(any(c2.get('fn') == 'hasNextFunc' for c2 in q.subtree_calls(g, c)) and br == 'then' for c, br in q.lexical_guards(g, r['i'])) for r in rets)
